@@ -1,10 +1,16 @@
 ﻿from nsl import Visitor
 
 
-def ValidateSwizzleMask(mask):
+def ValidateSwizzleMask(mask, componentCount=4):
     from .. import Utility, Errors
 
     if any([m not in "xyzwrgba" for m in mask]):
+        Errors.ERROR_INVALID_SWIZZLE_MASK.Raise()
+
+    # Only components the swizzled type actually has can be selected
+    if Utility.ContainsAnyOf(mask, "xyzw"[componentCount:]):
+        Errors.ERROR_INVALID_SWIZZLE_MASK.Raise()
+    elif Utility.ContainsAnyOf(mask, "rgba"[componentCount:]):
         Errors.ERROR_INVALID_SWIZZLE_MASK.Raise()
 
     if Utility.ContainsAnyOf(mask, "xyzw") and Utility.ContainsAnyOf(
@@ -28,9 +34,20 @@ class ValidateSwizzleMaskVisitor(Visitor.DefaultVisitor):
 
         t = expr.GetParent().GetType()
 
-        with nsl.Errors.CompileExceptionToErrorHandler(self.errorHandler):
+        def OnError():
+            self.valid = False
+
+        with nsl.Errors.CompileExceptionToErrorHandler(
+            self.errorHandler, OnError
+        ):
             if t.IsPrimitive() and (t.IsVector() or t.IsScalar()):
-                ValidateSwizzleMask(expr.GetMember())
+                componentCount = t.GetComponentCount() if t.IsVector() else 1
+                ValidateSwizzleMask(
+                    expr.GetMember().GetName(), componentCount
+                )
+
+        # The parent can be a swizzle (or contain one) as well
+        expr.AcceptVisitor(self, ctx)
 
 
 def GetPass():
